@@ -1,11 +1,12 @@
 PROP = dict(
-    modules=["Shangrla.Props.C16"],
+    modules=["Shangrla.Props.C16", "Shangrla.Props.C16Run"],
     theorems=["Shangrla.C16.tileTo_spec", "Shangrla.C16.firstCrossing_spec", "Shangrla.C16.det_first_crossing",
               "Shangrla.C16.comparisonPop_spec", "Shangrla.C16.comparisonPop_ok_iff", "Shangrla.C16.marks_unit",
               "Shangrla.C16.assumed_population_comparison", "Shangrla.C16.assumed_population_polling",
               "Shangrla.C16.find_eq", "Shangrla.C16.find_det_first_crossing", "Shangrla.C16.find_det_comparison",
               "Shangrla.C16.quantileInt_const", "Shangrla.C16.prefix_crossing", "Shangrla.C16.prefix_crossing_tail",
               "Shangrla.C16.prefix_crossing_km", "Shangrla.C16.find_prefix_crossing",
+              "Shangrla.C16.prefix_crossing_run", "Shangrla.C16.prefix_estimate_seed_irrelevant",
               "Shangrla.C16.maxOf_spec", "Shangrla.C16.contest_is_max", "Shangrla.C16.audit_contest_is_max",
               "Shangrla.C16.auditInj_is_max", "Shangrla.C16.auditInj_eq", "Shangrla.C16.audit_per_contest",
               "Shangrla.C16.audit_order_irrelevant", "Shangrla.C16.auditTotalNoStyle_spec",
@@ -13,9 +14,7 @@ PROP = dict(
     groups={"samplesize": (1200, 12000)},
     design_ref="DESIGN.md section 5, C16",
     assumptions=[
-        "prefix_crossing takes non-anticipation of the history of the test at hand (property C05) as the explicit "
-        "hypothesis hcausal; it is proved here for Kaplan-Markov (prefix_crossing_km), for the other tests it is the "
-        "C05 package's theorem",
+        "prefix_crossing takes non-anticipation of the history (property C05) as the explicit hypothesis hcausal; C16Run.lean discharges it with C05.hist_prefix_run for EVERY test, estimator and bet (prefix_crossing_run: the only hypothesis left about the test is that it runs on the simulated populations)",
         "the random tails prng.choice(x, size) of the simulation branch are an argument of the model (universally "
         "quantified in the theorems); the harness reproduces them from np.random.RandomState(seed)",
         "Audit.find_sample_size: modelled are the loop over contests, the maximum over the unproved assertions of "
